@@ -77,6 +77,13 @@ def gen(cs, rnd, n, fifo_share=0.3, files_share=0.25):
             run = {"argv": PL.cfg_argv(cfg, rnd, extra) + ["@FILE%d" % k for k in range(len(files))] + ["@FIFO"], "stdin": "", "files": [hexs(f) for f in files],
                    "fifo": {"prefix": "", "cycle": hexs(cyc2), "cap": 4 << 20}, "timeout_ms": 30000}
             base, src, use_fifo = len(data), "files+fifo", True
+            if cut is None and rnd.random() < 0.5:
+                # the regular file sits in a directory given as operand (one file below it, at some depth, so the listing order has no say):
+                # the Break travels up through read_file's recursion and ends the loop over the operands all the same (Run.tla: Break; MC_Run: DirLayouts)
+                name = rnd.choice(["d/a.json", "d/sub/a.json", "d/x/y/a.json"])
+                run["names"] = [name]
+                run["argv"] = [("@DIR/d" if a == "@FILE0" else a) for a in run["argv"]]
+                src = "dir+fifo"
         cs.add({"kind": "stop", "cfg": cfg, "input": [enc(v) for v in vals], "ends": ends, "slack": SLACK_FILE if use_fifo else SLACK_STDIN,
                 "runs": [run], "src": src, "base": base})
 
@@ -123,11 +130,23 @@ def check(tier, seed, replay=None):
         PC.expect_dev(chk, "DevSwallowBreak", "split", 0, prop="Terminates", live=True)
         PC.expect_dev(chk, "DevSplitLast", "split", 3, "StopsReading")
         PC.expect_dev(chk, "DevBreakEndsFileOnly", "split", 2, "BreakEndsReading")
+        # the same at the level of the whole run (Run.tla): operands that are files and directories in every listing order, --skip / --take in front of
+        # the three shapes - nothing is pulled beyond the look-ahead byte of the value that completes the rows, no later operand is opened
+        r = tlc("MC_Run", "MC_Run.cfg", workers=8, timeout=1800, heap="6g")
+        tlc_ok(r, "MC_Run")
+        if r.violated:
+            raise ToolError("the specification itself violates %s (MC_Run)" % r.violated)
+        chk.add_tlc(r, "MC_Run (BreakEndsReading, MergeOut, WritePrefix on the limited rows): 7 --skip/--take settings x 9 input layouts + a directory operand with a "
+                       "sub-directory in each of its 6 listing orders")
+        rd = tlc("MC_Run", "Dev_Run_break.cfg", workers=4, timeout=900)
+        if rd.violated != "BreakEndsReading":
+            raise ToolError("MC_Run with DevBreakEndsFileOnly no longer yields the expected counterexample")
+        chk.notes.setdefault("dev_counterexamples", []).append("Run: DevBreakEndsFileOnly -> BreakEndsReading violated (expected)")
         PC.model_check(chk, ["split"], 2, ["HeadStops", "BreakPropagates", "LimiterLatched"], workers=8)
         PC.expect_dev(chk, "DevSwallowBreak", "split", 2, "BreakPropagates")
         gen(cs, rnd, 200 if quick else 5000)
         gen_parent_filter(cs, rnd, 12 if quick else 300)
     per, recs = PC.run_and_validate(chk, jvh, cs, "c14", nproc=2 if tier == "quick" else 12)
-    chk.notes["sources"] = {k: sum(1 for r in cs.recipes if r.get("src") == k) for k in ("stdin", "fifo", "files+fifo")}
+    chk.notes["sources"] = {k: sum(1 for r in cs.recipes if r.get("src") == k) for k in ("stdin", "fifo", "files+fifo", "dir+fifo")}
     PC.summarize(chk, cs, per, lambda rc: (rc["cfg"]["take"] >= 1 or rc["cfg"]["skip"] >= 1) and len(rc["runs"][0]["argv"]) >= 2)
     return chk.finish()
